@@ -24,14 +24,14 @@ func alphabetFor(g *gspec.Grammar) []rune {
 
 // drawEntry picks an entry rule: mostly a listed entry, sometimes the default.
 func drawEntry(t *rapid.T, g *gspec.Grammar, allowBad bool) string {
-	k := rapid.IntRange(0, 19).Draw(t, "entrykind")
+	k := gspec.U(t, 20, "entrykind")
 	switch {
 	case k == 0:
 		return ""
 	case k == 1 && allowBad:
 		return "NoSuchRule"
 	}
-	return rapid.SampledFrom(g.Entries).Draw(t, "entry")
+	return gspec.Pick(t, g.Entries, "entry")
 }
 
 func entryRuleName(g *gspec.Grammar, entry string) string {
@@ -45,7 +45,7 @@ func drawC01(t *rapid.T, x *X) *Case {
 	g := x.G.Spec
 	c := &Case{Entry: drawEntry(t, g, true)}
 	c.Input = gspec.SampleInput(t, g, entryRuleName(g, c.Entry), alphabetFor(g), 48)
-	if rapid.IntRange(0, 3).Draw(t, "fname") == 0 {
+	if gspec.U(t, 4, "fname") == 0 {
 		c.Opts.Filename = "f.txt"
 	}
 	return c
